@@ -107,10 +107,28 @@ def run(chk):
             sph = True
             qs = [(cart_point(True, rng.uniform(-40, 50), rng.uniform(-30, 30), dd, 6371000.0, TOP), dd) for dd in [float(round(rng.uniform(0, 1.5e5))) for _k in range(160)]]
             T = rng.choice([8, 16, 32])
+        hydrated = wi % 8 == 4
+        if hydrated:
+            # water content models ask the world back for its temperature at the query point, once per composition: four
+            # compositions per point, a temperature that varies from point to point, many threads inside the wet layers
+            from qgen import TOP
+            liths = ["sediment", "MORB", "gabbro", "peridotite"]
+            fo = {"model": "oceanic plate", "name": "wet", "coordinates": [[-4e5, -4e5], [4e5, -4e5], [4e5, 4e5], [-4e5, 4e5]], "max depth": 1.2e5,
+                  "temperature models": [{"model": "linear", "max depth": 1.2e5, "top temperature": 280.0, "bottom temperature": 1500.0}],
+                  "composition models": [{"model": "tian water content", "compositions": [c], "lithology": liths[c], "initial water content": [3.0, 5.0, 4.0, 8.0][c],
+                                          "cutoff pressure": [1.0, 16.0, 26.0, 10.0][c]} for c in range(4)]}
+            wj, sph = {"version": "1.1", "features": [fo]}, False
+            qs = []
+            for _k in range(400):
+                dd = float(round(rng.uniform(1e3, 1.1e5)))
+                qs.append(((rng.uniform(-3.5e5, 3.5e5), rng.uniform(-3.5e5, 3.5e5), TOP - dd), dd))
+            T = 16
         slot = cs.add_world(wj, model=False)
         ps = prop_list(rng, maxlen=5)
         if wi % 4 == 2:
             ps = [[1, 0, 0]] + ps
+        if hydrated:
+            ps = [[2, 0, 0], [2, 1, 0], [2, 2, 0], [2, 3, 0], [1, 0, 0]]
         cs.raw("mt %d %d %d %s %s" % (slot, T, len(qs), " ".join("%s %s %s %s" % (fhex(p[0]), fhex(p[1]), fhex(p[2]), fhex(d)) for p, d in qs), props_tok(ps)),
                "let () = out_str \"skip\"", {"kind": "mt", "threads": T, "world": wj, "props": ps})
     impl2, _ = cs.run(model=False)
